@@ -25,7 +25,11 @@ def make_room(rng, n_walls=None, B=None):
     absorption = rng.uniform(0.05, 0.9, size=(6, B))
     att = rng.choice([0.0, 1.0], size=B) * rng.uniform(0.0, 0.2, size=B)
     c = float(rng.uniform(330, 350))
-    fs = float(rng.choice([500, 1000]))
+    fs = float(rng.choice([500, 1000, 441, 333.3]))
+    if rng.random() < 0.25:
+        # normalised units: a sampling rate that is not a whole number (delays of 0..13 samples per leg)
+        c = float(rng.uniform(0.8, 1.3))
+        fs = float(rng.choice([3.3, 2.5, 7.7]))
     K = int(rng.integers(1, 4))
     src = scenes.gen_point_inside(rng, sides, margin=0.25)
     rec = scenes.gen_point_inside(rng, sides, margin=0.25)
